@@ -594,6 +594,21 @@ def opDomain (j : Json) : Except String Json := do
     ("subclass", inSubclass g)]).toArray
 
 /-- soundness / exactness of an inferred tree against the source tree -/
+def strsOf (j : Json) : Except String (List String) := match j with
+  | .arr xs => xs.toList.mapM fun x => match x with
+    | .str s => pure s
+    | _ => throw "string expected"
+  | _ => throw "array expected"
+
+/-- every outcome of `get_weighted_cover` on one input (null = None) -/
+def opCover (j : Json) : Except String Json := do
+  let es ← (← getArr j "sets").toList.mapM strsOf
+  let u ← strsOf (← j.getObjVal? "universe")
+  let outs := O2P.Gate.weightedCover es u
+  pure <| Json.mkObj [("outcomes", Json.arr (outs.map fun o => match o with
+    | some c => famJson c
+    | none => Json.null).toArray)]
+
 def opJudge (j : Json) : Except String Json := do
   let src ← gateOfJson (← (j.getObjVal? "src"))
   match j.getObjVal? "inferred" with
@@ -627,6 +642,7 @@ def handle (j : Json) : Except String Json := do
   | "pvfile.roundtrip" => PVFileOps.run j
   | "gate.domain" => GateOps.opDomain j
   | "gate.judge" => GateOps.opJudge j
+  | "gate.cover" => GateOps.opCover j
   | _ => throw s!"unknown op {op}"
 
 partial def loop (h : IO.FS.Stream) (out : IO.FS.Stream) : IO Unit := do
